@@ -6,6 +6,7 @@ mod bufeng;
 mod bufmut;
 mod bufnode;
 mod bufrun;
+mod digest;
 mod fault;
 mod hist;
 mod histrun;
@@ -23,6 +24,7 @@ fn main() {
     let code = match args.pos.first().map(|s| s.as_str()) {
         Some("hist") => histrun::main_hist(&args),
         Some("tbl") => tbl::main_tbl(&args),
+        Some("digest") => digest::main_digest(&args),
         Some("fault") => fault::main_fault(&args),
         Some("recycle") => recycle::main_recycle(&args),
         Some("buf") => bufrun::main_buf(&args),
